@@ -107,5 +107,14 @@ func (w internalResponseWriter) Write(b []byte) (int, error) {
 	return w.ResponseWriterWrapper.Write(b)
 }
 
+// Flush ignores the call if the response should be redirected to an internal
+// location: flushing would commit the header block, X-Accel-Redirect included,
+// to the client before the redirect is followed.
+func (w internalResponseWriter) Flush() {
+	if !isInternalRedirect(w) {
+		w.ResponseWriterWrapper.Flush()
+	}
+}
+
 // Interface guards
 var _ httpserver.HTTPInterfaces = internalResponseWriter{}
